@@ -442,6 +442,11 @@ class Interp:
             self._exec_for(s, env)
         elif isinstance(s, ast.While):
             self.log("while_test", s, test=self.eval(s.test, env))
+            # loop-carried scalars (read in the body before the body assigns them) stand for "the value of the
+            # previous iteration": they become symbols, so the body is the generic iteration
+            for nm in _loop_carried(s.body):
+                if isinstance(env.lookup(nm), Num):
+                    env.set(nm, sym_num(nm))
             try:
                 self._exec_block(s.body, env)
             except (_Break, _Continue):
@@ -1496,6 +1501,39 @@ _ARITH = {
 
 def _has_all_descr(it, table, need):
     return "has_all(" + nf.show(it.to_nf(table), 120) + "; " + ", ".join(sorted(repr(i.s) for i in need.items)) + ")"
+
+
+def _loop_carried(body):
+    """names read in a loop body before the body (re)assigns them, and assigned somewhere in the body"""
+    assigned_anywhere = set()
+    for st in body:
+        for n in ast.walk(st):
+            if isinstance(n, ast.Name) and isinstance(n.ctx, ast.Store):
+                assigned_anywhere.add(n.id)
+    carried, assigned = [], set()
+
+    def reads(expr):
+        for n in ast.walk(expr):
+            if isinstance(n, ast.Name) and isinstance(n.ctx, ast.Load) and n.id in assigned_anywhere and n.id not in assigned and n.id not in carried:
+                carried.append(n.id)
+
+    for st in body:
+        if isinstance(st, ast.Assign):
+            reads(st.value)
+            for t in st.targets:
+                if isinstance(t, ast.Name):
+                    assigned.add(t.id)
+                else:
+                    reads(t)
+        elif isinstance(st, ast.AugAssign):
+            reads(st.value)
+            if isinstance(st.target, ast.Name):
+                if st.target.id not in assigned and st.target.id not in carried:
+                    carried.append(st.target.id)
+                assigned.add(st.target.id)
+        else:
+            reads(st)
+    return carried
 
 
 def _len_compatible(a, b):
